@@ -34,7 +34,7 @@ def set_debug(on):
         logging.disable(logging.CRITICAL)
 
 
-TARGETS = [{}, {'project_id': 'p1', 'k': 'v'}, {'nested': {'a': [1, {'b': None}]}, 'password': 'secret'},
+TARGETS = [{}, {'project_id': 'p1', 'k': 'v'}, {'password': 'pw1', 'target.secret.creator_id': 'u9', 'auth_token': 'tok'}, {'nested': {'a': [1, {'b': None}]}, 'password': 'secret'},
            {'obj': ev.Opaque(), 'k': 'v'}, {'t': True, 'n': None, 'f': 1.5}]
 
 
@@ -56,6 +56,11 @@ def run(ctx):
             rules = []
             for i, n in enumerate(names):
                 body = c06.rand_body(rng, names[i + 1:], rng.choice([1, 2, 3, 4]), pid, undef=bool(names[i + 1:]))
+                if rng.random() < 0.25:
+                    # a check that substitutes a target key whose name looks like a secret
+                    # (debug logging masks such keys in its dump; the decision must not care)
+                    sk = rng.choice(['password', 'target.secret.creator_id', 'auth_token'])
+                    body = ev.Or(body, ev.generic('sk', ev.ph(sk))) if rng.random() < 0.5 else ev.generic('sk', ev.ph(sk))
                 rules.append((n, body))
             dflt = rng.choice([('opt', None), ('name', names[-1]), ('check', ev.role('r1')), None])
             reg_names = [n for n in names if rng.random() < 0.6]
@@ -67,6 +72,7 @@ def run(ctx):
             for k in range(3 if q else 4):
                 qn = rng.choice(names + ['p:zz'])
                 creds = dict(rng.choice(c06.CREDS))
+                creds['sk'] = rng.choice(['pw1', 'u9', 'tok', 'other'])
                 r = rng.random()
                 if r < 0.3:
                     creds['system_scope'] = 'all'
@@ -75,6 +81,9 @@ def run(ctx):
                 else:
                     creds['project_id'] = 'p'
                 target = rng.choice(TARGETS)
+                if any('%(password)s' in t or 'secret' in t or 'auth_token' in t for t in (ev.rule_text(b) for _, b in rules)) and rng.random() < 0.8:
+                    target = TARGETS[2]
+                    creds['sk'] = rng.choice(['pw1', 'u9', 'tok'])
                 by = 'check' if rng.random() < 0.2 else 'name'
                 base = {'by': by, 'name': qn}
                 if by == 'check':
